@@ -67,6 +67,7 @@ const (
 	natOracleFinish // Oracle.finish()
 	natLock     // Notary.lockDepositUntil(self, till Val)
 	natWithdraw // Notary.withdraw(self, To)
+	natSetGas   // NEO.setGasPerBlock(Val), committee
 	// steps the NEO methods are desugared into (model only)
 	natNeoXferP
 	natVoteP
@@ -83,6 +84,8 @@ const (
 	responseGas = 10000000
 	tillTab     = 120
 	heightTab   = 121
+	gasPBTab    = 122
+	maxGasPerBlock = 1000000000
 	depositDelta = 5760
 	numNefs     = 3 // NEF variants of the interpreter contract (0 = as deployed)
 )
@@ -173,6 +176,8 @@ func nodeText(sb *strings.Builder, n *Node) {
 			fmt.Fprintf(sb, "NL %d %d ", n.Nat.Val, n.Fl)
 		case natWithdraw:
 			fmt.Fprintf(sb, "NW %d %d ", n.Nat.To, n.Fl)
+		case natSetGas:
+			fmt.Fprintf(sb, "GP %d %d ", n.Nat.Val, n.Fl)
 		case natDesignate:
 			fmt.Fprintf(sb, "R %d %d %d ", n.Nat.To, n.Nat.Val, n.Fl)
 		case natSetWl:
@@ -281,6 +286,8 @@ func (w *world) nativeArgs(n *Node, self util.Uint160, selfID int) (util.Uint160
 		return w.oracle, "request", []any{oracleURLs[n.Nat.Val], nil, "cb", nil, int64(responseGas)}
 	case natOracleFinish:
 		return w.oracle, "finish", []any{}
+	case natSetGas:
+		return w.neo, "setGasPerBlock", []any{int64(n.Nat.Val)}
 	case natLock:
 		return w.notary, "lockDepositUntil", []any{self, int64(n.Nat.Val)}
 	case natWithdraw:
